@@ -407,7 +407,9 @@ func (c *PullClient) getSetupURL(ctrl string) (setupURL *url.URL, err error) {
 
 	setupURL = new(url.URL)
 	*setupURL = *c.url
-	if setupURL.Path[len(setupURL.Path)-1] == '/' {
+	if len(setupURL.Path) == 0 { // 源地址可能没有路径部分，例如 rtsp://host
+		setupURL.Path = "/" + ctrl
+	} else if setupURL.Path[len(setupURL.Path)-1] == '/' {
 		setupURL.Path = setupURL.Path + ctrl
 	} else {
 		setupURL.Path = setupURL.Path + "/" + ctrl
